@@ -207,9 +207,15 @@ func SpinningFunc(stack string) string {
 	if fn == "" {
 		return InnermostRepoFunc(stack)
 	}
+	rec := strings.HasPrefix(fn, "recursion:")
+	fn = strings.TrimPrefix(fn, "recursion:")
 	fn = strings.TrimPrefix(fn, "github.com/uber-go/gopatch")
 	fn = strings.TrimLeft(fn, "/.")
-	return reClosure.ReplaceAllString(fn, "")
+	fn = reClosure.ReplaceAllString(fn, "")
+	if rec {
+		fn = "recursion:" + fn
+	}
+	return fn
 }
 
 var reClosure = regexp.MustCompile(`\.func[0-9].*$`)
